@@ -67,6 +67,8 @@ def main():
         fs.mark("merge_returned")
         return merged, decisions
     app.merge_notebooks = wrapped
+    import tempfile
+    tempfile.gettempdir()      # probe the default temp directory outside the seams (random file names)
     fs.install()
     pp.Popen = fs.popen
     sys.argv[0] = "git-nbmergedriver"
